@@ -183,16 +183,15 @@ def observe(case, with_meta=False):
     try:
         prev = case.get('after')
         if prev and shape != ():
-            # the same Dataset and TestStudent objects served another comparison before: their arrays are then overwritten
-            # in place with the numbers of this case, and the test is evaluated again
+            # the same Dataset objects served another comparison before: their arrays are then overwritten in place with
+            # the numbers of this case and a new test is built on them
             objs = [dataset(prev['ref'], sc)] + [dataset(o, sc) for o in prev['oth']]
-            tst = TestStudent(objs[0], *objs[1:], name='c05', alpha=alpha, ndf=ndf)
-            tst.evaluate()
+            test(objs[0], objs[1:])
             for obj, cells in zip(objs, [case['ref']] + list(case['oth'])):
                 fresh = dataset(cells, sc)
                 obj.value[...] = fresh.value
                 obj.error[...] = fresh.error
-            res = tst.evaluate()
+            res = test(objs[0], objs[1:])
         else:
             res = test(dataset(case['ref'], sc), [dataset(o, sc) for o in case['oth']])
         verdict = bool(res)
